@@ -51,6 +51,7 @@ uint8_t vp_c04_send(char *ba) { QAD *d = *(QAD**)ba; ASSERT(d != SHARED_NULL, "C
   ASSERT(sent_n < SENT_CAP, "C04 model: socket log capacity"); ASSUME(sent_n < SENT_CAP);
   sent_tag[sent_n] = t; sent_n++; return vp_bool(); }
 uint32_t vp_c04_sent_n(void) { return sent_n; }
+void vp_c04_reset_logs(void) { sent_n = 0; c04_disconnects = 0; c04_sig_connected = 0; c04_sig_error = 0; c04_start_enc = 0; }
 uint32_t vp_c04_sent_tag(uint32_t i) { return i < SENT_CAP ? sent_tag[i] : 0; }
 /* calls on the member object d->socket are bound statically to XmppSocket::sendData: same ghost log */
 uint8_t _ZN5QXmpp7Private10XmppSocket8sendDataERK10QByteArray(char *self, char *ba) { return vp_c04_send(ba); }
